@@ -99,6 +99,40 @@ def h_bind(order: int, n0: Optional[int], n1: Optional[int], n2: Optional[int], 
     return True
 
 
+def h_bind_seq(n0: Optional[int], n1: Optional[int], n2: Optional[int], e_shift: int, vec: int, reassign: bool, rounds: int) -> bool:
+    """
+    short-lived drivers: each driver is created, used and dropped before the next one (with other settings) is created, for 1-2 rounds over
+    the three settings; optionally a setting of a live driver is reassigned between two uses.  Every JobInput carries the settings of the
+    instance it is built through, as they are at that moment
+    pre: 0 <= e_shift <= 2 and 0 <= vec <= 1 and 1 <= rounds <= 2
+    pre: (n0 is None or 1 <= n0 <= 64) and (n1 is None or 1 <= n1 <= 64) and (n2 is None or 1 <= n2 <= 64)
+    post: _
+    """
+    sh = pick(e_shift, 3)
+    ns = [n0, n1, n2]
+    for step in range(3 * pick(rounds - 1, 2) + 3):
+        i = step % 3
+        kw = dict(executable=EXES[(i + sh) % 3], envars=ENVS[(i + sh) % 3], check_exe=False, find=False)
+        if ns[i] is not None:
+            kw["nprocs"] = ns[i]
+        d = Drv(**kw)
+        want_n = 1 if ns[i] is None else ns[i]
+        for use in range(2):
+            if pick(vec, 2) == 0:
+                inps = [d.calc.prepare(step, extra="zz")]
+            else:
+                inps = list(d.many.prepare([step], extra="zz"))
+            for inp in inps:
+                if inp.commands != [(d.executable, "calc")] or inp.files["nprocs"] != want_n or dict(inp.envars or {}) != dict(ENVS[(i + sh) % 3] or {}):
+                    return False
+            if not reassign:
+                break
+            d.nprocs = want_n = want_n + 1                     # the driver's settings change while it is alive
+            d.executable = EXES[(i + sh + 1) % 3]
+        del d
+    return True
+
+
 def h_bind_fixed(n0: int, n1: int, first: int) -> bool:
     """
     job-level settings (executable, nprocs, envars pinned on the Job) win over the instance's for every instance; instance envars are merged in
@@ -491,14 +525,14 @@ def run(rep, tier):
     rep.encoded = ENCODED
     q = tier == "quick"
     rep.models_validated += validate_models()
-    rep.bounds = {"binding": "3 driver instances (distinct executables, environments from a menu, processor counts symbolic in [1,64] or defaulted), 9 orders of use of length 2-4 with repeats, single and vectorised jobs, "
+    rep.bounds = {"binding": "short-lived drivers created, used and dropped one after another (1-2 rounds, optional reassignment of a live driver's settings); 3 driver instances (distinct executables, environments from a menu, processor counts symbolic in [1,64] or defaulted), 9 orders of use of length 2-4 with repeats, single and vectorised jobs, "
                              "job-level pinned settings; the real XTBDriver optimize_m / energy_m with symbolic molecule and caller charge / multiplicity (Optional, incl. 0)",
                   "run_local": "1-4 commands, each first-failure position (or none) with a symbolic non-zero return code in [-2,2], all named/unnamed patterns, requested-file sets {2 files, 1 file, (), None, nested path}, each subset produced, 4 input-file sets (text, bytes, none), 3 environment overrides"}
     rep.outside = ["real processes and the real filesystem in the symbolic runs (modelled; every counterexample is replayed with real sh processes, real files and the real msgpack job file)",
                    "msgpack / sha3 inside JobInput.hash, dump, load (exercised concretely: validate_models)", "Job.__call__, worker, the SGE runner", "timeouts (JobInput.timeout is not honoured by run_local and the property does not mention it)"]
     rep.assumptions = ["FakeProc world: subprocess.run returns the scripted code, writes out<i>/err<i> to the given streams and creates the scripted files in cwd; TemporaryDirectory removes its tree on exit; os.chdir/getcwd are a variable"]
     env = {"XH_QUICK": "1"} if q else {}
-    specs = [{"fn": "h_bind", "timeout": 900, "split": s} for s in range(len(ORDERS))] + [{"fn": "h_bind_fixed", "timeout": 600}, {"fn": "h_xtb", "timeout": 900}]
+    specs = [{"fn": "h_bind", "timeout": 900, "split": s} for s in range(len(ORDERS))] + [{"fn": "h_bind_fixed", "timeout": 600}, {"fn": "h_bind_seq", "timeout": 600}, {"fn": "h_xtb", "timeout": 900}]
     # split = 8 * (number of commands) + (named/unnamed pattern mod 8): one process per pattern residue that exists for that length
     specs += [{"fn": "h_run", "timeout": 900 if q else 3000, "split": 8 * n + r, "env": env} for n in range(1, 5) for r in range(min(8, 2 ** n))]
     xh.run_obligations(rep, "harness.C17", specs)
